@@ -118,7 +118,7 @@ def run(ctx):
                       desc="failed-row skip uses original_index")
     for call in row_context_pushes(prog, roc):
         n_map += 1
-        ctx.check(any(isinstance(y, ast.Attribute) and y.attr == "original_index" for y in ast.walk(call.args[1])), "R7.5",
+        ctx.check(depends_on(ReachingDefs(roc), call.args[1], call, lambda y: isinstance(y, ast.Attribute) and y.attr == "original_index"), "R7.5",
                   roc.qualname, call, loc(roc, call), "the row label pushed in the onset pass does not derive from original_index",
                   desc="onset-pass row label derives from original_index")
     ctx.floor("R7.5", "file-row mappings in the onset pass", n_map, 2)
